@@ -132,6 +132,13 @@ def inspect(dest: str, before: set) -> Tuple[Optional[bytes], List[str]]:
 def judge(run, scn: dict, outcome: str, dest: str, before: set, action: tuple, log: List[tuple], engine: str, case: dict) -> None:
     """Directory oracle after one run."""
     content, tmps = inspect(dest, before)
+    sub = os.path.dirname(dest)
+    gone = sorted(n for n in before if n != os.path.basename(dest) and not os.path.exists(os.path.join(sub, n)))
+    if gone and outcome != 'crashed':
+        # a file that was in the directory before this writer started is not this writer's to delete (it may be the
+        # temporary file of another writer, or what a dead process left behind)
+        run.violation(f'the writer removed {gone} which it had not created [outcome {outcome}]', witness={'scenario': scn, 'action': list(action)},
+                      case=case, engine=engine, key='foreign-file-removed')
     old = OLD if (scn.get('dest_exists', True) and not scn.get('missing_parent')) else None
     new = expected_new(scn)
     what_boundary = next((f'{k}:{kind} {name}' for k, kind, name in log if action[0] != 'none' and k == action[1]), 'none')
